@@ -1,6 +1,8 @@
 (* C13 (group A): importers swisscard2, viac, cumulus, postfinance, swisscard, supercard.
    input  = "<flags> | <hex file> | <items>"   (see harness/c13a.go)
    model  = the importer model run on the items (the records Go's reader delivered)
+            (csv-records: for the importers with a plain csv reader the items are also derived from the statement's
+             bytes <hex file> with the extracted reader model Model/Csv.v, Model/CsvImp.v, and must be the same)
    spec   = evaluated on the binary's output by the observer (it needs `knut print`), which
             appends " | print=... | rows=..." to the observation; here that is turned into
             the verdict.  Then the statement-level specification (Spec/ImpStmtA.v, theorems
@@ -38,6 +40,32 @@ let decode_items (s : string) : K.citem list =
       let body = String.sub it 1 (String.length it - 1) in
       K.CRec (List.map (fun f -> str_of_string (unhex_plain f)) (String.split_on_char ',' body)))
     (String.split_on_char ';' s)
+
+(* the importers whose reader is modelled (Model/CsvImp.v) *)
+let importer_cfg : string -> K.csv_cfg option = function
+  | "swisscard2" -> Some K.cfg_swisscard2
+  | "swisscard" -> Some K.cfg_swisscard
+  | "cumulus" -> Some K.cfg_cumulus
+  | "revolut2" -> Some K.cfg_revolut2
+  | "revolut" -> Some K.cfg_revolut
+  | "wise" -> Some K.cfg_wise
+  | "swissquote" -> Some K.cfg_swissquote
+  | "interactivebrokers" -> Some K.cfg_interactivebrokers
+  | _ -> None
+
+(* the reader items the model derives from the statement's bytes; None = reader not modelled (observed items stand) *)
+let items_from_bytes (imp : string) (hex : string) : K.citem list option =
+  let bytes = str_of_string (if hex = "-" then "" else unhex_plain hex) in
+  if imp = "postfinance" then Some (K.csv_items_bom K.cfg_postfinance bytes)   (* utfbom.SkipOnly in front *)
+  else match importer_cfg imp with
+  | None -> None
+  | Some cfg -> Some (K.csv_items cfg bytes)
+
+(* "" when the items the harness recorded (Go's reader) are the items the model reads from the bytes *)
+let csv_records_verdict (imp : string) (hex : string) (items : string) : string =
+  match items_from_bytes imp hex with
+  | None -> ""
+  | Some its -> if its = decode_items items then "" else "FAIL:csv-records: the records Go's csv reader delivered are not the records Model/Csv.v reads from the statement's bytes"
 
 let decode_viac (s : string) : K.vinput =
   if s = "!" then K.VErr
@@ -92,7 +120,7 @@ let statement_verdict (imp : string) (base : string) (out : K.z list option) : s
     else "FAIL:" ^ imp ^ "_statement_output: stdout is not the journal the specification prescribes for the statement"
 
 let run (imp : string) (inp : string) (obs : string) : string * string =
-  let (fl, _, items) = split3 inp in
+  let (fl, hex, items) = split3 inp in
   let flags = flag_assoc fl in
   let get k = try List.assoc k flags with Not_found -> "-" in
   let acct = opt_flag (get "acct") in
@@ -156,6 +184,9 @@ let run (imp : string) (inp : string) (obs : string) : string * string =
          exit class and stdout are still compared with the model's (correspondence), and the
          outcomes are counted in the evidence (input_distribution). *)
       "ok" in
+  (* the records the importer model starts from are the records the csv model reads from the statement's bytes
+     (swisscard2, swisscard, cumulus, postfinance; every kind of case) *)
+  let spec = match csv_records_verdict imp hex items with "" -> spec | v -> v in
   (* the observation of a panic carries Go's message; the model only says PANIC *)
   let model_line = if model = "PANIC" && cls = "PANIC" then base else model in
   (model_line ^ " | print=" ^ pr ^ " | rows=" ^ rows, spec)
